@@ -42,12 +42,12 @@ Theorem C20_pass_pointwise : forall c now tbl lg,
   NoDup (map a_id tbl) ->
   fst (checker_pass c now tbl lg) = map (pass_row c now) tbl /\
   snd (checker_pass c now tbl lg) = lg ++ map (hb_event now) (filter (due c now) tbl).
-Proof. intros c now tbl lg H. split; [apply checker_pass_rows; exact H | apply checker_pass_log]. Qed.
+Proof. exact pass_pointwise. Qed.
 Print Assumptions C20_pass_pointwise.
 
 Theorem C20_broken_or_fresh_untouched : forall c now r,
   (a_parent_ok r = false \/ expired c now r = false) -> pass_row c now r = r.
-Proof. intros c now r [H|H]; [apply broken_row_skipped | apply pass_row_not_expired]; exact H. Qed.
+Proof. exact broken_or_fresh_untouched. Qed.
 Print Assumptions C20_broken_or_fresh_untouched.
 
 (* interval * max_missed = 0: the service never runs a pass and a pass request changes nothing *)
@@ -57,12 +57,7 @@ Theorem C20_disabled : forall c,
   (forall t0 n, first_pass_at c t0 = None /\ nth_pass_at c t0 n = None) /\
   (forall ops s, (forall e, In e (log s) -> e_kind e <> RHeartbeat) ->
                  forall e, In e (log (run c ops s)) -> e_kind e <> RHeartbeat).
-Proof.
-  intros c H. split; [|split].
-  - intros. apply service_disabled. exact H.
-  - intros. apply no_pass_when_disabled. exact H.
-  - intros ops s. apply disabled_never_expires. exact H.
-Qed.
+Proof. exact disabled_all. Qed.
 Print Assumptions C20_disabled.
 
 (* Arbitrary sequences of create / heartbeat / genuine result / orphaning / checker pass / clock
@@ -92,7 +87,7 @@ Theorem C20_heartbeat_error_only_if_stale : forall c ops s,
   (forall e, In e (log s) -> ev_ok c e) ->
   forall e, In e (log (run c ops s)) -> e_kind e = RHeartbeat ->
   enabled c = true /\ exists h, e_hb e = Some h /\ h < e_at e - max_missed c * interval c.
-Proof. intros c ops s H e He. exact (stale_run c ops s H e He). Qed.
+Proof. exact heartbeat_error_only_if_stale. Qed.
 Print Assumptions C20_heartbeat_error_only_if_stale.
 
 (* A silent RUNNING synchronous action (last heartbeat h, parent present): through any sequence
